@@ -252,8 +252,18 @@ def sub_dest(case):
     acc = _Acc()
     enc = 'base58' if kind != 'wit' else 'bech32'
 
+    fwd_ok = []      # forward ways (from the address) that produced exactly the reference script
+    rev_lost = []    # reverse ways (from the script) that did not report the address back
+
     def J(way, f):
-        _judge(acc, way, net, kind, ver, payload, _observe(f), a, spk, std)
+        obs = _observe(f)
+        _judge(acc, way, net, kind, ver, payload, obs, a, spk, std)
+        if 'exc' not in obs:
+            if 'lock_script' in way or way == 'Output.parse':
+                if obs.get('address') != a:
+                    rev_lost.append((way, obs.get('address'), obs.get('type')))
+            elif 'address=' in way and obs.get('script') == spk:
+                fwd_ok.append(way)
 
     # --- 1. address string
     J('Output(address=str)', lambda: Output(VAL, address=a, network=net))
@@ -320,6 +330,17 @@ def sub_dest(case):
     J('add_output(lock_script)', lambda: _tx_out(net, lock_script=spk))
     stream = VAL.to_bytes(8, 'little') + codec.cs_encode(len(spk)) + spk
     J('Output.parse', lambda: Output.parse(BytesIO(stream + b'\xff\xff'), network=net))
+    # --- inverse law for every destination the library itself accepts: address -> script -> address
+    if fwd_ok and rev_lost and not std:
+        # (standard destinations are already required to report address and type above)
+        hexlike = _is_hexlike(payload)
+        for way, got_addr, got_type in rev_lost:
+            rcls = 'reported_unknown' if got_type == 'unknown' else ('no_address' if not got_addr else 'other_address')
+            acc.dev(HEXSIG if hexlike else
+                    'reverse(lock_script)|inverse_law_broken_address_accepted_but_its_script_not_mapped_back|'
+                    'program_len=%d|%s' % (len(payload), rcls),
+                    {'way': way, 'net': net, 'ver': ver, 'payload': ph, 'address': a, 'script': spk.hex(),
+                     'forward_ok': fwd_ok[:2], 'reverse_address': got_addr, 'reverse_type': got_type})
     # --- 5. default type for a bare 20-byte hash: any standard single-key form, self-consistent
     if kind == 'p2pkh':
         for way, f in (('Output(public_hash)', lambda: Output(VAL, public_hash=payload, network=net)),
